@@ -432,7 +432,12 @@ def zone_cases(draw):
         owner = [G.flip_case(draw, l) for l in rel] + origin
         tname = draw(st.one_of(st.sampled_from(["A", "AAAA", "TXT", "MX", "NS", "NS", "DS", "A", "TXT"]), st.sampled_from(["RRSIG", "RRSIG", "ZONEMD"]), st.sampled_from([t for t in R.ZONE_TYPES if t not in ("SOA", "NSEC", "SIG", "CNAME", "DNAME", "NSEC3")])))
         rec = draw(R.record(ctx=ctx, name=tname))
-        records.append([G.hexl(owner), tname, draw(st.sampled_from([60, 300, 3600])), rec["wire"]])
+        wire = rec["wire"]
+        if tname == "RRSIG" and wire[:4] == "0005":
+            # an RRSIG covering CNAME is CNAME-kind data: adding it to a node evicts the node's other
+            # data by design (dns.node), which is not what this part is about (CNAME is left out too)
+            wire = "0001" + wire[4:]
+        records.append([G.hexl(owner), tname, draw(st.sampled_from([60, 300, 3600])), wire])
     return {"origin": G.hexl(origin), "relativize": draw(st.booleans()), "factory": draw(st.sampled_from(_FACTORIES)), "records": records}
 
 
